@@ -39,6 +39,7 @@ ASSUMPTIONS = [
     "ends the converted test there, the statements before it are compared",
 ]
 NSHARDS = {'quick': 16, 'thorough': 16}
+RULE += (" Modules hold methods named like a module function behind a nested class; star imports at top level and nested; converted tests are executed and their event log compared with the doctest's.")
 
 
 def required_cells(tier):
